@@ -42,10 +42,14 @@ def helper_case(rng, fam, g, doc: Node, docs, helper, fixed=None):
         if helper == "can_split":
             depth = fixed.get("depth") or rng.randint(1, 3)
             args["depth"] = depth
-            approved = bool(structure.can_split(doc, a, depth))
+            ta = None
+            if fixed.get("types_after"):
+                ta = [structure.NodeTypeWithAttrs(sc.nodes[nm], at) for nm, at in fixed["types_after"]]
+                args["types_after"] = fixed["types_after"]
+            approved = bool(structure.can_split(doc, a, depth, ta))
             if approved:
                 structure_only = True
-                out, err = ops.run(tr, lambda t: t.split(a, depth))
+                out, err = ops.run(tr, lambda t: t.split(a, depth, ta))
                 performed = out == "ok"
         elif helper == "can_join":
             approved = bool(structure.can_join(doc, a))
@@ -335,6 +339,45 @@ def generate(rng: random.Random, tier: str):
                            schema=info.schema_term(), kind="struct:drop_point", nontrivial=True)
 
 
+    # can_split with types_after (the node types, with attributes, the split-off parts are to get): Model.StructOps.can_split_ta
+    from pm import attrs_term
+    for fam in gen.FAMILY:
+        g, docs = S.family_docs(rng, fam, 8 if quick else 50)
+        info = S.info_for(fam)
+        sc = gen.family(fam)
+        blocky = [t for t in sc.nodes.values() if not t.is_text and not t.is_inline]
+        for doc in docs:
+            ps = S.boundary_positions(doc)
+            deep = [p_ for p_ in ps if doc.resolve(p_).depth >= 2] or ps
+            for _ in range(24 if quick else 60):
+                pos = rng.choice(deep if rng.random() < 0.8 else ps)
+                rp = doc.resolve(pos)
+                dmax = rp.depth
+                depth = rng.randint(1, max(1, min(4, dmax)))
+                base = dmax - depth
+                k = rng.randint(1, depth)
+                ta = []
+                for j in range(k):
+                    # types_after[j] is the type the part split off at depth base+1+j gets: mostly the type it has
+                    if rng.random() < 0.7 and base + 1 + j >= 1:
+                        t_ = rp.node(base + 1 + j).type
+                    else:
+                        t_ = rng.choice(blocky)
+                    ta.append(structure.NodeTypeWithAttrs(t_, g_attrs(rng, t_)))
+                taterm = lst(f"({info.ty(w.type)}, {attrs_term(w.attrs)})" for w in ta)
+                ans = _answer(info, lambda: structure.can_split(doc, pos, depth, ta), "bool")
+                yield Case(coq=f"CStruct @S@ {info.node(doc)} (QCanSplitTA {nat(pos)} {nat(depth)} {taterm}) {ans[0]}",
+                           desc={"case": "struct", "family": fam, "doc": doc.to_json(),
+                                 "query": {"q": "can_split_ta", "pos": pos, "depth": depth,
+                                           "types_after": [[w.type.name, w.attrs] for w in ta]}, "answer": ans[1]},
+                           schema=info.schema_term(), kind=f"struct:can_split_ta/{ans[1].split(chr(58))[0]}", nontrivial=True)
+                if ans[1] == "True" and not any(w.type.is_leaf for w in ta):
+                    # (a leaf type cannot be split into: asking for one is outside what the helper is for)
+                    # ... and the promise: Transform.split with these types then succeeds and gives a valid document
+                    yield helper_case(rng, fam, g, doc, docs, "can_split",
+                                      {"a": pos, "depth": depth, "types_after": [[w.type.name, w.attrs] for w in ta]})
+
+
 def rebuild(desc):
     """re-run a recorded helper case on the current implementation (helpers whose arguments are all in the
     description: can_split, can_join, join_point, lift_target, drop_point)"""
@@ -347,7 +390,7 @@ def rebuild(desc):
     g = gen.DocGen(sc, rng)
     doc = Node.from_json(sc, desc["doc"])
     fixed = {"a": args["pos"], "c": args.get("to", args["pos"])}
-    for k in ("depth", "dir", "slice", "level"):
+    for k in ("depth", "dir", "slice", "level", "types_after"):
         if k in args:
             fixed[k] = args[k]
     return helper_case(rng, fam, g, doc, [doc], helper, fixed)
